@@ -3,6 +3,14 @@
   (`rd (fmt x) = some (q x)`), printing is a projection (`fmt (q x) = fmt x`).  Then the representable numbers
   `q x = x` satisfy the exact law, the exported document does not change when every number of the network is replaced
   by its quantised value, and reading the export gives exactly that quantised network.
+
+  Round 6: the law has a DOMAIN for the second printer.  The sexagesimal text `gon2deg(m, 0, 4)` prints no sign and
+  is defined only while `int(gon·0.9)` is (`|g|·0.9 < 2³¹−1`): its two laws are false for some `x`, so
+  `Codec.PrinterOn D` requires them only for `x ∈ D`, and the theorems that print an angular value in degrees assume
+  the network's angular values lie in `D` (`Net.AngIn D`: gama normalises observed angles to [0, 400) gon; it is
+  what `Net.WF C R Rd n` says about them when `Rd ⊆ D`, `Net.WF.angIn`).  `Codec.Printer` is `PrinterOn` with the
+  trivial domain (every law for every `x`): C12's record round trips and the toy `decCodec` use that form.
+  The decimal printer `%.{p}g` (`fmt`, `rd`) satisfies its laws for every `x`; they stay unrestricted.
 -/
 import Gama.Lemmas.ExportNet
 namespace Gama.Export
@@ -10,7 +18,7 @@ open Gama.Gen.GkfAttrs Gama.Gen.GkfDoc
 
 variable {K : Type}
 
-structure Codec.Printer (C : Codec K) (q qd : K → K) : Prop where
+structure Codec.PrinterOn (C : Codec K) (D : K → Prop) (q qd : K → K) : Prop where
   rd_fmt : ∀ x, C.rd (C.fmt x) = some (q x)         -- defined for every x
   fmt_q : ∀ x, C.fmt (q x) = C.fmt x                -- printing is a projection
   isZero_iff : ∀ x, C.isZero x = true ↔ x = C.zero
@@ -23,29 +31,46 @@ structure Codec.Printer (C : Codec K) (q qd : K → K) : Prop where
   latOut_latIn : ∀ x, C.latOut (C.latIn x) = x
   rdDeg_fmt : ∀ x, C.rdDeg (C.fmt x) = none
   fmt_ne : ∀ x, C.fmt x ≠ ""
-  -- the sexagesimal text (gon2deg(m, 0, 4) / deg2gon) is a second printer, with its own quantisation `qd`
-  rdDeg_fmtDeg : ∀ x, C.rdDeg (C.fmtDeg x) = some (qd x)
-  fmtDeg_qd : ∀ x, C.fmtDeg (qd x) = C.fmtDeg x
+  -- the sexagesimal text (gon2deg(m, 0, 4) / deg2gon) is a second printer, with its own quantisation `qd`; its laws
+  -- are required on the domain `D` only
+  rdDeg_fmtDeg : ∀ x, D x → C.rdDeg (C.fmtDeg x) = some (qd x)
+  fmtDeg_qd : ∀ x, D x → C.fmtDeg (qd x) = C.fmtDeg x
   -- 0.324 and 1.0/0.324
   fromSec_toSec : ∀ x, C.fromSec (C.toSec x) = x
   toSec_fromSec : ∀ x, C.toSec (C.fromSec x) = x
 
-theorem Codec.Printer.q_idem {C : Codec K} {q qd : K → K} (P : C.Printer q qd) (x : K) : q (q x) = q x := by
+/-- the law without a domain: every field for every `x` (C12's records; the toy printers) -/
+abbrev Codec.Printer (C : Codec K) (q qd : K → K) : Prop := C.PrinterOn (fun _ => True) q qd
+
+theorem Codec.PrinterOn.mono {C : Codec K} {D D' : K → Prop} {q qd : K → K} (P : C.PrinterOn D q qd)
+    (h : ∀ x, D' x → D x) : C.PrinterOn D' q qd :=
+  { P with rdDeg_fmtDeg := fun x hx => P.rdDeg_fmtDeg x (h x hx), fmtDeg_qd := fun x hx => P.fmtDeg_qd x (h x hx) }
+
+/-- a printer without a domain is a printer on every domain -/
+theorem Codec.Printer.on {C : Codec K} {q qd : K → K} (P : C.Printer q qd) (D : K → Prop) : C.PrinterOn D q qd :=
+  Codec.PrinterOn.mono (D := fun _ => True) P (fun _ _ => trivial)
+
+theorem Codec.PrinterOn.q_idem {C : Codec K} {D : K → Prop} {q qd : K → K} (P : C.PrinterOn D q qd) (x : K) : q (q x) = q x := by
   have h1 := P.rd_fmt (q x)
   rw [P.fmt_q, P.rd_fmt] at h1
   exact (Option.some.inj h1).symm
 
-/-- the representable numbers of a printer satisfy the exact law -/
-theorem Codec.Printer.qd_idem {C : Codec K} {q qd : K → K} (P : C.Printer q qd) (x : K) : qd (qd x) = qd x := by
-  have h1 := P.rdDeg_fmtDeg (qd x)
-  rw [P.fmtDeg_qd, P.rdDeg_fmtDeg] at h1
+/-- the sexagesimal quantisation is idempotent where both `x` and `qd x` are in the domain -/
+theorem Codec.PrinterOn.qd_idem {C : Codec K} {D : K → Prop} {q qd : K → K} (P : C.PrinterOn D q qd) (x : K)
+    (hx : D x) (hq : D (qd x)) : qd (qd x) = qd x := by
+  have h1 := P.rdDeg_fmtDeg (qd x) hq
+  rw [P.fmtDeg_qd x hx, P.rdDeg_fmtDeg x hx] at h1
   exact (Option.some.inj h1).symm
 
-theorem Codec.Printer.degLawfulOn {C : Codec K} {q qd : K → K} (P : C.Printer q qd) : C.DegLawfulOn (fun x => qd x = x) :=
-  { rdDeg_fmtDeg := fun x hx => by rw [P.rdDeg_fmtDeg, hx]
+/-- the representable angles of the domain satisfy the exact law -/
+theorem Codec.PrinterOn.degLawfulOn {C : Codec K} {D : K → Prop} {q qd : K → K} (P : C.PrinterOn D q qd) :
+    C.DegLawfulOn (fun x => D x ∧ qd x = x) :=
+  { rdDeg_fmtDeg := fun x hx => by rw [P.rdDeg_fmtDeg x hx.1, hx.2]
     fromSec_toSec := P.fromSec_toSec }
 
-theorem Codec.Printer.lawfulOn {C : Codec K} {q qd : K → K} (P : C.Printer q qd) : C.LawfulOn (fun x => q x = x) :=
+/-- the representable numbers of a printer satisfy the exact law -/
+theorem Codec.PrinterOn.lawfulOn {C : Codec K} {D : K → Prop} {q qd : K → K} (P : C.PrinterOn D q qd) :
+    C.LawfulOn (fun x => q x = x) :=
   { num := ⟨fun x hx => by rw [P.rd_fmt, hx], P.isZero_iff⟩
     neg_neg := P.neg_neg
     R_neg := fun x hx => by simp only [P.q_neg, hx]
@@ -53,6 +78,41 @@ theorem Codec.Printer.lawfulOn {C : Codec K} {q qd : K → K} (P : C.Printer q q
     latIn_latOut := P.latIn_latOut
     rdDeg_fmt := P.rdDeg_fmt
     fmt_ne := P.fmt_ne }
+
+/-! ## the domain of the angular values -/
+
+/-- the values the export prints as sexagesimal text (angular observations of a file in degrees) lie in `D` -/
+def Cluster.AngIn (D : K → Prop) (gons : Bool) : Cluster K → Prop
+  | .obs sp _ => ∀ o ∈ sp.obs, (gons || !o.kind.angular) = false → D o.val
+  | _ => True
+
+def Net.AngIn (D : K → Prop) (n : Net K) : Prop := ∀ c ∈ n.clusters, c.AngIn D n.par.gons
+
+instance {D : K → Prop} [DecidablePred D] (gons : Bool) (c : Cluster K) : Decidable (c.AngIn D gons) := by
+  cases c <;> unfold Cluster.AngIn <;> infer_instance
+
+instance {D : K → Prop} [DecidablePred D] (n : Net K) : Decidable (n.AngIn D) := by
+  unfold Net.AngIn; infer_instance
+
+/-- a document in gons prints no sexagesimal text -/
+theorem Net.angIn_gons (D : K → Prop) (n : Net K) (h : n.par.gons = true) : n.AngIn D := by
+  intro c _
+  cases c with
+  | obs sp cov => intro o _ ho; simp [h] at ho
+  | _ => trivial
+
+/-- `Net.WF` requires the angular values of a file in degrees to be in `Rd`: with `Rd ⊆ D` they are in the domain -/
+theorem Net.WF.angIn {C : Codec K} {R Rd D : K → Prop} {n : Net K} (w : n.WF C R Rd) (h : ∀ x, Rd x → D x) : n.AngIn D := by
+  intro c hc
+  have wc := w.clusters c hc
+  cases c with
+  | obs sp cov =>
+    intro o ho hg
+    have hr := (wc.1 o ho).2.1
+    unfold Obs.RepU at hr
+    rw [hg] at hr
+    exact h _ hr.1
+  | _ => trivial
 
 /-! ## the quantised network: what the parser stores after reading the export -/
 
@@ -96,15 +156,15 @@ def quantNet (C : Codec K) (q qd : K → K) (n : Net K) : Net K :=
            points := n.points.map (quantPoint q)
            clusters := n.clusters.map (quantCluster C q qd n.par.gons n.par.sigmaApr) }
 
-variable {C : Codec K} {q qd : K → K}
+variable {C : Codec K} {D : K → Prop} {q qd : K → K}
 
-theorem fmt_sgn_q (P : C.Printer q qd) (b : Bool) (x : K) : C.fmt (sgn C b (q x)) = C.fmt (sgn C b x) := by
+theorem fmt_sgn_q (P : C.PrinterOn D q qd) (b : Bool) (x : K) : C.fmt (sgn C b (q x)) = C.fmt (sgn C b x) := by
   cases b
   · simp [sgn, P.fmt_q]
   · simp only [sgn, if_true]
     rw [← P.q_neg, P.fmt_q]
 
-theorem flipWith_map (P : C.Printer q qd) (bs : List Bool) (xs : List K) :
+theorem flipWith_map (P : C.PrinterOn D q qd) (bs : List Bool) (xs : List K) :
     flipWith C.neg bs (xs.map q) = (flipWith C.neg bs xs).map q := by
   induction bs generalizing xs with
   | nil => cases xs <;> rfl
@@ -113,10 +173,10 @@ theorem flipWith_map (P : C.Printer q qd) (bs : List Bool) (xs : List K) :
     | nil => rfl
     | cons x xs => cases b <;> simp [flipWith, ih, P.q_neg]
 
-theorem exportCov_quant (P : C.Printer q qd) (c : Cov K) : exportCov C.toNumFmt (quantCov q c) = exportCov C.toNumFmt c := by
+theorem exportCov_quant (P : C.PrinterOn D q qd) (c : Cov K) : exportCov C.toNumFmt (quantCov q c) = exportCov C.toNumFmt c := by
   simp [exportCov, quantCov, List.map_map, Function.comp_def, P.fmt_q]
 
-theorem exportCovCall_quant (P : C.Printer q qd) (call : Bool × Bool) (ys degrees : Bool) (mir : Nat → Bool) (c : Cov K) :
+theorem exportCovCall_quant (P : C.PrinterOn D q qd) (call : Bool × Bool) (ys degrees : Bool) (mir : Nat → Bool) (c : Cov K) :
     exportCovCall C call ys degrees mir (fun _ => false) (quantCov q c) = exportCovCall C call ys degrees mir (fun _ => false) c := by
   have hm : mirrorCov C.neg mir (quantCov q c) = quantCov q (mirrorCov C.neg mir c) := by
     simp [mirrorCov, quantCov, flipWith_map P]
@@ -134,7 +194,7 @@ theorem exportCovCall_quant (P : C.Printer q qd) (call : Bool × Bool) (ys degre
 theorem quantCovU_band (gons : Bool) (ang : Nat → Bool) (c : Cov K) : (quantCovU C q gons ang c).band = c.band := by
   cases gons <;> rfl
 
-theorem covOut_quantCovU (P : C.Printer q qd) (gons : Bool) (ang : Nat → Bool) (c : Cov K) :
+theorem covOut_quantCovU (P : C.PrinterOn D q qd) (gons : Bool) (ang : Nat → Bool) (c : Cov K) :
     covOut C gons ang (quantCovU C q gons ang c) = quantCov q (covOut C gons ang c) := by
   cases gons
   · simp only [covOut, quantCovU, Bool.false_eq_true, if_false]
@@ -142,7 +202,7 @@ theorem covOut_quantCovU (P : C.Printer q qd) (gons : Bool) (ang : Nat → Bool)
   · rfl
 
 /-- the `<cov-mat>` of an `<obs>` cluster, gons or degrees -/
-theorem exportCovCall_obs_quant (P : C.Printer q qd) (ys gons : Bool) (ang : Nat → Bool) (c : Cov K) :
+theorem exportCovCall_obs_quant (P : C.PrinterOn D q qd) (ys gons : Bool) (ang : Nat → Bool) (c : Cov K) :
     exportCovCall C covCall_StandPoint ys (!gons) (fun _ => false) ang (quantCovU C q gons ang c) =
       exportCovCall C covCall_StandPoint ys (!gons) (fun _ => false) ang c := by
   by_cases hb : c.band = 0
@@ -152,7 +212,8 @@ theorem exportCovCall_obs_quant (P : C.Printer q qd) (ys gons : Bool) (ang : Nat
   · have hb' : (quantCovU C q gons ang c).band ≠ 0 := by rw [quantCovU_band]; exact hb
     rw [exportCovCall_obs C ys gons ang _ hb', exportCovCall_obs C ys gons ang c hb, covOut_quantCovU P, exportCov_quant P]
 
-theorem exportObsU_quant (P : C.Printer q qd) (gons : Bool) (cf : String) (o : Obs K) :
+theorem exportObsU_quant (P : C.PrinterOn D q qd) (gons : Bool) (cf : String) (o : Obs K)
+    (hD : (gons || !o.kind.angular) = false → D o.val) :
     exportObsU C gons cf (quantObsU C q qd gons o) = exportObsU C gons cf o := by
   by_cases hg : (gons || !o.kind.angular) = true
   · have h1 : quantObsU C q qd gons o = quantObs q o := by simp [quantObsU, hg]
@@ -165,24 +226,24 @@ theorem exportObsU_quant (P : C.Printer q qd) (gons : Bool) (cf : String) (o : O
         { o with val := qd o.val, stdev := C.fromSec (q (C.toSec o.stdev)), fromDh := q o.fromDh, toDh := q o.toDh, fsDh := q o.fsDh } := by
       simp [quantObsU, hg']
     rw [h1]
-    simp only [exportObsU, hg', Bool.false_eq_true, if_false, exportObsV, dhAttr, P.fmt_q, P.isZero_q, P.fmtDeg_qd,
+    simp only [exportObsU, hg', Bool.false_eq_true, if_false, exportObsV, dhAttr, P.fmt_q, P.isZero_q, P.fmtDeg_qd _ (hD hg'),
       P.toSec_fromSec, visStdevScaled, if_true]
 
-theorem exportDh_quant (P : C.Printer q qd) (s0 : K) (h : HDiff K) :
+theorem exportDh_quant (P : C.PrinterOn D q qd) (s0 : K) (h : HDiff K) :
     exportDh C.toNumFmt true C.pos dhStdevAlways (quantDh C q s0 h) = exportDh C.toNumFmt true C.pos dhStdevAlways h := by
   cases hp : C.pos h.dist <;> simp [exportDh, quantDh, P.fmt_q, P.pos_q, hp]
 
-theorem exportPoint_quant (P : C.Printer q qd) (ys : Bool) (p : Point K) :
+theorem exportPoint_quant (P : C.PrinterOn D q qd) (ys : Bool) (p : Point K) :
     exportPoint C ys (quantPoint q p) = exportPoint C ys p := by
   obtain ⟨id, xy, z, s1, s2⟩ := p
   cases xy <;> cases z <;> simp [exportPoint, quantPoint, fixStr, adjStr, P.fmt_q, fmt_sgn_q P]
 
-theorem exportCPoint_quant (P : C.Printer q qd) (ys : Bool) (p : CPoint K) :
+theorem exportCPoint_quant (P : C.PrinterOn D q qd) (ys : Bool) (p : CPoint K) :
     exportCPoint C ys (quantCPoint q p) = exportCPoint C ys p := by
   obtain ⟨id, xy, z⟩ := p
   cases xy <;> cases z <;> simp [exportCPoint, quantCPoint, fmt_sgn_q P]
 
-theorem exportVec_quant (P : C.Printer q qd) (ys : Bool) (v : Vec K) : exportVec C ys (quantVec q v) = exportVec C ys v := by
+theorem exportVec_quant (P : C.PrinterOn D q qd) (ys : Bool) (v : Vec K) : exportVec C ys (quantVec q v) = exportVec C ys v := by
   simp only [exportVec, quantVec, fmt_sgn_q P]
   rfl
 
@@ -201,6 +262,12 @@ theorem map_map_eq {α β : Type} (f : α → β) (g : α → α) (h : ∀ a, f 
   intro a _
   exact h a
 
+theorem map_map_eq_mem {α β : Type} (f : α → β) (g : α → α) (l : List α) (h : ∀ a ∈ l, f (g a) = f a) : (l.map g).map f = l.map f := by
+  rw [List.map_map]
+  apply List.map_congr_left
+  intro a ha
+  exact h a ha
+
 theorem map_angular_quant (gons : Bool) (obs : List (Obs K)) :
     (obs.map (quantObsU C q qd gons)).map (fun o => o.kind.angular) = obs.map (fun o => o.kind.angular) := by
   rw [List.map_map]
@@ -209,19 +276,19 @@ theorem map_angular_quant (gons : Bool) (obs : List (Obs K)) :
   simp only [Function.comp, quantObsU]
   split <;> rfl
 
-theorem exportCluster_quant (P : C.Printer q qd) (ys gons : Bool) (s0 : K) (c : Cluster K) :
+theorem exportCluster_quant (P : C.PrinterOn D q qd) (ys gons : Bool) (s0 : K) (c : Cluster K) (hD : c.AngIn D gons) :
     exportCluster' C ys gons (quantCluster C q qd gons s0 c) = exportCluster' C ys gons c := by
   cases c with
   | obs sp cov =>
+    have hobs : (sp.obs.map (quantObsU C q qd gons)).map (exportObsU C gons sp.station) = sp.obs.map (exportObsU C gons sp.station) :=
+      map_map_eq_mem _ _ _ (fun o ho => exportObsU_quant P gons sp.station o (hD o ho))
     have hfl : (sp.obs.map (quantObsU C q qd gons)).map (fun o => o.kind.angular) = sp.obs.map (fun o => o.kind.angular) :=
       map_angular_quant gons sp.obs
     cases cov with
     | none =>
-      simp only [exportCluster', quantCluster, map_map_eq _ _ (exportObsU_quant P gons sp.station), Option.map_none,
-        Option.bind_none]
+      simp only [exportCluster', quantCluster, hobs, Option.map_none, Option.bind_none]
     | some cv =>
-      simp only [exportCluster', quantCluster, map_map_eq _ _ (exportObsU_quant P gons sp.station), Option.map_some,
-        Option.bind_some, hfl, exportCovCall_obs_quant P]
+      simp only [exportCluster', quantCluster, hobs, Option.map_some, Option.bind_some, hfl, exportCovCall_obs_quant P]
   | hdiffs dhs cov =>
     cases cov <;>
     simp [exportCluster', quantCluster, map_map_eq _ _ (exportDh_quant P s0), exportCovCall_quant P]
@@ -230,7 +297,7 @@ theorem exportCluster_quant (P : C.Printer q qd) (ys gons : Bool) (s0 : K) (c : 
   | vectors vecs cov =>
     simp [exportCluster', quantCluster, map_map_eq _ _ (exportVec_quant P ys), exportCovCall_quant P, vecFlags_map]
 
-theorem exportParams_quant (P : C.Printer q qd) (p : Params K) : exportParams C (quantParams C q p) = exportParams C p := by
+theorem exportParams_quant (P : C.PrinterOn D q qd) (p : Params K) : exportParams C (quantParams C q p) = exportParams C p := by
   obtain ⟨sa, cp, ta, ap, g, alg, lat, ell, cb⟩ := p
   cases lat <;> simp only [exportParams, quantParams, Option.map, P.fmt_q, P.latOut_latIn, latitudeInGons, if_true] <;> rfl
 
@@ -244,7 +311,7 @@ theorem filter_active_quant (ps : List (Point K)) :
     cases p.active <;> simp
 
 /-- the document does not see the difference between a number and its printed-and-read value (gons and degrees) -/
-theorem exportNet_quant (P : C.Printer q qd) (n : Net K) :
+theorem exportNet_quant (P : C.PrinterOn D q qd) (n : Net K) (hD : n.AngIn D) :
     exportNet C (quantNet C q qd n) = exportNet C n := by
   have hh : exportHead C { n.head with epoch := n.head.epoch.map q } = exportHead C n.head := by
     obtain ⟨ax, la, ep⟩ := n.head
@@ -257,14 +324,15 @@ theorem exportNet_quant (P : C.Printer q qd) (n : Net K) :
       (fun p => congrArg DItem.point (exportPoint_quant P n.head.ys p)) _
   have hc : (n.clusters.map (quantCluster C q qd n.par.gons n.par.sigmaApr)).map (exportCluster' C n.head.ys n.par.gons) =
       n.clusters.map (exportCluster' C n.head.ys n.par.gons) :=
-    map_map_eq _ _ (exportCluster_quant P n.head.ys n.par.gons n.par.sigmaApr) _
+    map_map_eq_mem _ _ _ (fun c hc => exportCluster_quant P n.head.ys n.par.gons n.par.sigmaApr c (hD c hc))
   simp only [exportNet, quantNet, hh, hys, hg, exportParams_quant P, filter_active_quant, hp, hc]
 
-/-- reading the export gives the quantised network (without its unused points) -/
-theorem parse_export_net_printer (P : C.Printer q qd) (impl : Kind → K) (par0 : Params K) (n : Net K)
-    (hw : (quantNet C q qd n).WF C (fun x => q x = x) (fun x => qd x = x)) :
+/-- reading the export gives the quantised network (without its unused points); `hD`: the angular values a file in
+    degrees prints as sexagesimal text are in the domain of that printer -/
+theorem parse_export_net_printer (P : C.PrinterOn D q qd) (impl : Kind → K) (par0 : Params K) (n : Net K) (hD : n.AngIn D)
+    (hw : (quantNet C q qd n).WF C (fun x => q x = x) (fun x => D x ∧ qd x = x)) :
     parseNet C impl par0 (exportNet C n) = .ok (canon (quantNet C q qd n)) := by
-  rw [← exportNet_quant P n]
+  rw [← exportNet_quant P n hD]
   exact parse_export_net C P.lawfulOn P.degLawfulOn impl par0 _ hw
 
 end Gama.Export
